@@ -49,6 +49,9 @@ static void one(void) {
     if (sends != 1) { BAD("no-hello", "%d frames in answer to the Discover", sends); return; }
     wd_frame f; wd_decode(vf_trace_bytes + t->off, t->len, &f);
     if (f.opcode != 0x01 || !f.tlv_end_ok) { BAD("unparsable", "Hello property list does not parse to its end marker"); return; }
+    { /* structure (C02's clauses) for every attribute tuple: host id first, legal lengths, no type twice, end marker last */
+      const char *why = wd_wellformed(&f, f.realsrc, W.iface[0].mtu > 1500 ? W.iface[0].mtu : 1500);
+      if (why) { char cls[80]; snprintf(cls, sizeof cls, "structure:%s", why); BAD(cls, "Hello for this attribute tuple is not well-formed: %s", why); } }
     uint32_t fail = fi->fail | W.host.fail;
     uint8_t v[64];
     expect_tlv(&f, 0x01, fi->mac, 6, "host-id", (fail & VF_G_MAC) != 0);
